@@ -31,7 +31,7 @@ NULL = "/dev/null"
 
 
 def budget(tier):
-    return 800 if tier == "quick" else 8000
+    return 600 if tier == "quick" else 8000
 
 
 def valid(case):
